@@ -6,32 +6,54 @@ from harness.core import Prop
 ROWKINDS = [(None, None), (None, "x"), (0, None), (0, "x"), (1, None), (1, "x")]
 ATOMS = {
     "a=0": "a = 0", "a=1": "a = 1", "a<>0": "a <> 0", "anull": "a is null", "anotnull": "a is not null",
-    "b=x": "b = 'x'", "b<>x": "b <> 'x'", "true": "1 = 1", "false": "1 = 0", "a=null": "a = null",
+    "b=x": "b = {x}", "b<>x": "b <> {x}", "true": "1 = 1", "false": "1 = 0", "a=null": "a = null",
 }
-SETS = {"a0": "a = 0", "a1": "a = 1", "anull": "a = null", "bx": "b = 'x'", "bnull": "b = null"}
+SETS = {"a0": "a = 0", "a1": "a = 1", "anull": "a = null", "bx": "b = {x}", "bnull": "b = null"}
+# what the abstract text value 'x' is in one behaviour: plain, text that looks like a session variable reference (LIM is set
+# on the connection), text with a quote, text that looks like a placeholder
+XS = ["x", "x", "$lim", "it's x", "50%s"]
+# the value as a literal expression of the statement text; "$lim" is spelled by concatenation because $<word> inside a literal is
+# the recorded defect C15.ref_in_string_literal
+XLIT = {"x": "'x'", "$lim": "'$' || 'lim'", "it's x": "'it''s x'", "50%s": "'50%s'"}
 
 
-def pred_sql(p) -> str:
-    t = p["t"]
-    if t == "atom":
-        return ATOMS[p["p"]]
-    if t == "not":
-        return f"not ({pred_sql(p['x'])})"
-    return f"(({pred_sql(p['x'])}) {t} ({pred_sql(p['y'])}))"
+class Render:
+    """SQL text of a statement with the abstract text value either as a literal or as bound pyformat parameters."""
+
+    def __init__(self, xs: str, bind: bool):
+        self.xs, self.bind, self.params = xs, bind, []
+
+    def x(self) -> str:
+        if self.bind:
+            self.params.append(self.xs)
+            return "%s"
+        return XLIT[self.xs]
+
+    def fill(self, template: str) -> str:
+        while "{x}" in template:
+            template = template.replace("{x}", self.x(), 1)
+        return template
+
+    def pred(self, p) -> str:
+        t = p["t"]
+        if t == "atom":
+            return self.fill(ATOMS[p["p"]])
+        if t == "not":
+            return f"not ({self.pred(p['x'])})"
+        return f"(({self.pred(p['x'])}) {t} ({self.pred(p['y'])}))"
+
+    def lit(self, v) -> str:
+        if v is None or v == -1 or v == "null":
+            return "null"
+        return self.x() if isinstance(v, str) else str(v)
 
 
-def lit(v) -> str:
-    if v is None or v == -1 or v == "null":
-        return "null"
-    return f"'{v}'" if isinstance(v, str) else str(v)
-
-
-def bag(raw, fq) -> list[int]:
+def bag(raw, fq, xs="x") -> list[int]:
     rows = raw.execute(f"select a, b from {fq}").fetchall()
     out = [0] * len(ROWKINDS)
     for a, b in rows:
         try:
-            out[ROWKINDS.index((None if a is None else int(a), b))] += 1
+            out[ROWKINDS.index((None if a is None else int(a), "x" if b == xs else (None if b is None else "?" + b)))] += 1
         except ValueError:
             return [-1] * len(ROWKINDS)  # a row outside the vocabulary: no spec result can match
     return out
@@ -99,6 +121,8 @@ class C04(Prop):
         raw = _FS.duck_conn.cursor()
         cur = conn.cursor()
         fq_t, fq_u = f"DB1.{sc}.T", f"DB1.{sc}.U"
+        xs = rng.choice(XS)
+        cur.execute("set lim = 2")
         ev = []
         for op in ops:
             k = op["k"]
@@ -108,10 +132,13 @@ class C04(Prop):
                     for fq, rows in ((fq_t, op["t"]), (fq_u, op["u"])):
                         raw.execute(f"create or replace table {fq} (a bigint, b varchar)")
                         for a, b in rows:
-                            raw.execute(f"insert into {fq} values ({lit(a)}, {lit(b)})")
+                            raw.execute(f"insert into {fq} values (?, ?)", [None if a in (None, -1) else a, None if b in (None, "null") else xs])
                 elif k == "trunc":
                     cur.execute(rng.choice(["truncate table t", "truncate t", "TRUNCATE TABLE T"]))
                 elif k in ("insv", "inss", "upd", "del"):
+                    how = op.get("how", "x")
+                    rd = Render(xs, how == "bind")
+                    lit, pred_sql = rd.lit, rd.pred
                     if k == "insv":
                         cl = op["cl"]
                         if cl == "a":
@@ -126,22 +153,33 @@ class C04(Prop):
                     elif k == "inss":
                         sql = f"insert into t select a, b from u where {pred_sql(op['p'])}"
                     elif k == "upd":
-                        sql = f"update t set {SETS[op['s']]} where {pred_sql(op['p'])}"
+                        sql = f"update t set {rd.fill(SETS[op['s']])} where {pred_sql(op['p'])}"
                     else:
                         sql = f"delete from t where {pred_sql(op['p'])}"
-                    cur.execute(sql)
-                    rows = cur.fetchall()
-                    obs["status"] = [int(x) for x in rows[0]] if len(rows) == 1 else [-9]
-                    obs["cols"] = [d.name for d in cur.description]
-                    obs["rc"] = -1 if cur.rowcount is None else int(cur.rowcount)
+                    c2 = cur
+                    if how == "sn":
+                        if conn.execute_string(sql, return_cursors=False):
+                            raise ValueError("execute_string(return_cursors=False) returned cursors")
+                        c2 = None
+                    elif how == "s":
+                        c2 = list(conn.execute_string(sql))[-1]
+                    elif how == "bind":
+                        cur.execute(sql, tuple(rd.params))
+                    else:
+                        cur.execute(sql)
+                    if c2 is not None:
+                        rows = c2.fetchall()
+                        obs["status"] = [int(x) for x in rows[0]] if len(rows) == 1 else [-9]
+                        obs["cols"] = [d.name for d in c2.description]
+                        obs["rc"] = -1 if c2.rowcount is None else int(c2.rowcount)
                 elif k == "ddl":
                     obs = self._ddl(op, conn, cur, raw, sc, rng)
                 else:
                     raise ValueError(k)
             except Exception as e:
                 obs = {"res": "exc:" + type(e).__name__, "status": [], "cols": [], "rc": -2}
-            obs["t"] = bag(raw, fq_t)
-            obs["u"] = bag(raw, fq_u)
+            obs["t"] = bag(raw, fq_t, xs)
+            obs["u"] = bag(raw, fq_u, xs)
             ev.append({"op": op, "obs": obs})
         raw.execute(f"drop schema if exists DB1.{sc} cascade")
         return ev
